@@ -85,12 +85,14 @@ def groups(tier, rng):
             v.add(respell(p, rng) + b"\r\n")
         variants.append(v.case(seg="line") + "\tTAG=probe")
         # the same keywords with malformed values: a parameter of a disabled extension is 504 whatever its value (the value of a
-        # parameter the server does not implement is none of its business); with the extension enabled the value is refused as such
+        # parameter the server does not implement is none of its business); with the extension enabled the value is refused as such.
+        # (`ENVID=` and `RRVS=` with NO value are not among them any more: since 8fd736d that is no esmtp-param at all and is answered 501
+        # by the parameter parser, before any keyword is looked at — C11 judges it)
         b = g.Conv(cfg)
         b.add((b"LHLO" if lmtp else b"EHLO") + b" probe.example\r\n")
-        for p in (b"MAIL FROM:<s@x> RET=SOME", b"RSET", b"MAIL FROM:<s@x> ENVID=", b"RSET", b"MAIL FROM:<s@x> ENVID=a+zz", b"RSET",
+        for p in (b"MAIL FROM:<s@x> RET=SOME", b"RSET", b"MAIL FROM:<s@x> ENVID=a+2", b"RSET", b"MAIL FROM:<s@x> ENVID=a+zz", b"RSET",
                   b"MAIL FROM:<s@x>", b"RCPT TO:<a@x> NOTIFY=BOGUS", b"RCPT TO:<a@x> NOTIFY=NEVER,SUCCESS", b"RCPT TO:<a@x> ORCPT=x400",
-                  b"RCPT TO:<a@x> ORCPT=rfc822;", b"RCPT TO:<a@x> RRVS=yesterday", b"RCPT TO:<a@x> RRVS=", b"RCPT TO:<a@x> rrvs=2021-02-29T00:00:00Z", b"NOOP"):
+                  b"RCPT TO:<a@x> ORCPT=rfc822;", b"RCPT TO:<a@x> RRVS=yesterday", b"RCPT TO:<a@x> RRVS=0", b"RCPT TO:<a@x> rrvs=2021-02-29T00:00:00Z", b"NOOP"):
             b.add(p + b"\r\n")
         variants.append(b.case(seg="line") + "\tTAG=probe")
         if not lmtp:
